@@ -494,29 +494,13 @@ func fieldNilBelief(c *core.Ctx) {
 					continue
 				}
 				n++
-				guarded := false
-				for _, ch := range checks {
-					nonNil := ch.check.Block().Succs[1-ch.nilOn]
-					if len(nonNil.Preds) == 1 && (nonNil == l.risky.Block() || nonNil.Dominates(l.risky.Block())) {
-						guarded = true
-					}
-					// the nil side leaves the function: everything after the test is the non-nil side
-					nilSide := ch.check.Block().Succs[ch.nilOn]
-					if len(nilSide.Preds) == 1 && blockAlwaysReturns(nilSide) && ch.check.Block().Dominates(l.risky.Block()) && nilSide != l.risky.Block() && !nilSide.Dominates(l.risky.Block()) {
-						guarded = true
-					}
-				}
-				// the nil side repairs the field (if x.f == nil { x.f = default })
+				// is the dereference reachable from the nil side of one of the tests, along a path that
+				// does not re-assign the field and does not take contradictory outcomes of one condition?
+				guarded := true
 				for _, ch := range checks {
 					nilSide := ch.check.Block().Succs[ch.nilOn]
-					for _, in2 := range nilSide.Instrs {
-						if st, ok := in2.(*ssa.Store); ok {
-							if fa2, ok := st.Addr.(*ssa.FieldAddr); ok && fa2.Field == key.field && (fa2.X == key.base || core.SameStorage(fa2.X, key.base)) {
-								if ch.check.Block().Dominates(l.risky.Block()) {
-									guarded = true
-								}
-							}
-						}
+					if nilPathReaches(nilSide, ch.check, ch.nilOn, l.risky, key.base, key.field) {
+						guarded = false
 					}
 				}
 				if guarded {
@@ -974,4 +958,93 @@ func nilBranchReportsError(v ssa.Value) bool {
 		}
 	}
 	return false
+}
+
+// condKey normalises a branch condition `load(x.f) == K` / `!= K` (also against
+// nil and for len(...) == 0 style tests it gives up) to a key and the truth of
+// "equals" on the taken edge.
+func condKey(iff *ssa.If, succ int) (string, bool, bool) {
+	bo, ok := iff.Cond.(*ssa.BinOp)
+	if !ok || (bo.Op != token.EQL && bo.Op != token.NEQ) {
+		return "", false, false
+	}
+	ld, ok := bo.X.(*ssa.UnOp)
+	if !ok || ld.Op != token.MUL {
+		return "", false, false
+	}
+	fa, ok := ld.X.(*ssa.FieldAddr)
+	if !ok {
+		return "", false, false
+	}
+	k, ok := bo.Y.(*ssa.Const)
+	if !ok {
+		return "", false, false
+	}
+	kv := "nil"
+	if k.Value != nil {
+		kv = k.Value.ExactString()
+	}
+	key := fa.X.Name() + "." + itoa(fa.Field) + "==" + kv
+	equalsOnTrue := bo.Op == token.EQL
+	truth := equalsOnTrue
+	if succ == 1 {
+		truth = !equalsOnTrue
+	}
+	return key, truth, true
+}
+
+func nilPathReaches(start *ssa.BasicBlock, check *ssa.If, nilOn int, target ssa.Instruction, base ssa.Value, field int) bool {
+	type frame struct {
+		b     *ssa.BasicBlock
+		facts map[string]bool
+	}
+	init := map[string]bool{}
+	if k, t, ok := condKey(check, nilOn); ok {
+		init[k] = t
+	}
+	seen := map[*ssa.BasicBlock]int{}
+	var dfs func(b *ssa.BasicBlock, facts map[string]bool, depth int) bool
+	dfs = func(b *ssa.BasicBlock, facts map[string]bool, depth int) bool {
+		if depth > 40 || seen[b] > 3 {
+			return false
+		}
+		seen[b]++
+		defer func() { seen[b]-- }()
+		for _, in := range b.Instrs {
+			if in == target {
+				return true
+			}
+			if st, ok := in.(*ssa.Store); ok {
+				if fa, ok := st.Addr.(*ssa.FieldAddr); ok && fa.Field == field && (fa.X == base || core.SameStorage(fa.X, base)) {
+					return false // re-assigned on this path
+				}
+			}
+		}
+		iff, isIf := (ssa.Instruction)(nil), false
+		if len(b.Instrs) > 0 {
+			iff, isIf = b.Instrs[len(b.Instrs)-1], true
+		}
+		for i, s := range b.Succs {
+			nf := facts
+			if isIf {
+				if ifi, ok := iff.(*ssa.If); ok {
+					if k, t, ok := condKey(ifi, i); ok {
+						if old, had := facts[k]; had && old != t {
+							continue // contradicts an outcome taken earlier on this path
+						}
+						nf = map[string]bool{}
+						for kk, vv := range facts {
+							nf[kk] = vv
+						}
+						nf[k] = t
+					}
+				}
+			}
+			if dfs(s, nf, depth+1) {
+				return true
+			}
+		}
+		return false
+	}
+	return dfs(start, init, 0)
 }
